@@ -264,7 +264,37 @@ class _CanonStmts(ast.NodeTransformer):
         return out
 
     def _fold_returns(self, body):
-        return self._ifexp_to_if(self._fold_pairs(body))
+        return self._ifexp_to_if(self._fold_pairs(self._loops_to_comprehensions(body)))
+
+    def _loops_to_comprehensions(self, body):
+        """`xs = []; for a in it: [if c:] xs.append(e)` -> `xs = [e for a in it if c]` (xs not read by e / c; no nested scope
+        in the loop that could tell a comprehension variable from a function local)"""
+        out, i = [], 0
+        while i < len(body):
+            st, nxt = body[i], (body[i + 1] if i + 1 < len(body) else None)
+            if (isinstance(st, ast.Assign) and len(st.targets) == 1 and isinstance(st.targets[0], ast.Name) and isinstance(st.value, ast.List) and not st.value.elts
+                    and isinstance(nxt, ast.For) and not nxt.orelse and len(nxt.body) == 1):
+                xs = st.targets[0].id
+                inner, cond = nxt.body[0], None
+                if isinstance(inner, ast.If) and not inner.orelse and len(inner.body) == 1:
+                    cond, inner = inner.test, inner.body[0]
+                tn = {t.id for t in ast.walk(nxt.target) if isinstance(t, ast.Name)}
+                # the loop variable must not be used after the loop (a comprehension would hide it)
+                later = any(isinstance(x, ast.Name) and x.id in tn for s2 in body[i + 2:] for x in ast.walk(s2))
+                if (not later and isinstance(inner, ast.Expr) and isinstance(inner.value, ast.Call) and isinstance(inner.value.func, ast.Attribute)
+                        and inner.value.func.attr == "append" and isinstance(inner.value.func.value, ast.Name) and inner.value.func.value.id == xs
+                        and len(inner.value.args) == 1 and not inner.value.keywords
+                        and not any(isinstance(x, ast.Name) and x.id == xs for x in ast.walk(inner.value.args[0]))
+                        and not (cond is not None and any(isinstance(x, ast.Name) and x.id == xs for x in ast.walk(cond)))
+                        and not any(isinstance(x, (ast.Yield, ast.YieldFrom, ast.Await, ast.NamedExpr, ast.Lambda, ast.ListComp, ast.SetComp, ast.DictComp, ast.GeneratorExp))
+                                    for x in ast.walk(nxt))):
+                    comp = ast.ListComp(elt=inner.value.args[0], generators=[ast.comprehension(target=nxt.target, iter=nxt.iter, ifs=[cond] if cond is not None else [], is_async=0)])
+                    out.append(ast.copy_location(ast.Assign(targets=st.targets, value=ast.copy_location(comp, nxt)), st))
+                    i += 2
+                    continue
+            out.append(st)
+            i += 1
+        return out
 
     def _fold_pairs(self, body):
         out = []
